@@ -65,6 +65,12 @@ var shapeArgs = map[string][]string{
 	"stats":     {"stats"},
 	"lint":      {"lint", "log.yaml"},
 	"lint-s":    {"lint", "-s", "log.yaml"},
+	"reg-e":     {"--no-color", "reg", "-e", "2021/01/01"},
+	"bal-e":     {"bal", "-e", "2021/01/01"},
+	"csv-log-e": {"csv", "log", "-e", "2021/01/01"},
+	"print-e":   {"-e", "2021/01/01", "print"},
+	"rep-qty-e": {"-e", "2021/01/01", "report", "quantity"},
+	"rep-tot-e": {"-e", "2021/01/01", "report", "totals"},
 }
 
 // realised is a concrete file for one abstract file state
